@@ -542,6 +542,12 @@ class Folder:
                 raise Raised("ValueError", e)
             # an operation of the host language on abstract values that this evaluation does not model
             raise Unfoldable("%s: %s(%s)" % (unparse(e)[:60], type(ex).__name__, ex))
+        except OverflowError:
+            # arithmetic of the host language on plain numbers (float('1e999') into a Fraction, a float power out of range):
+            # the evaluated program meets exactly this OverflowError at this expression
+            from .absint import Raised
+
+            raise Raised("OverflowError", e)
         finally:
             self.depth -= 1
             _CURRENT.pop()
